@@ -215,10 +215,12 @@ func (p *c15Plain) Exists(key string) (bool, error) {
 	}
 	return ok, err
 }
-func (p *c15Plain) SetExpiration(key string, ttl time.Duration) error { return p.in.SetExpiration(key, ttl) }
-func (p *c15Plain) GetExpiration(key string) (time.Duration, error)   { return p.in.GetExpiration(key) }
-func (p *c15Plain) CleanupExpired() error                             { return p.in.CleanupExpired() }
-func (p *c15Plain) Close() error                                      { return nil }
+func (p *c15Plain) SetExpiration(key string, ttl time.Duration) error {
+	return p.in.SetExpiration(key, ttl)
+}
+func (p *c15Plain) GetExpiration(key string) (time.Duration, error) { return p.in.GetExpiration(key) }
+func (p *c15Plain) CleanupExpired() error                           { return p.in.CleanupExpired() }
+func (p *c15Plain) Close() error                                    { return nil }
 
 var _ storage.Storage = (*c15Plain)(nil)
 
